@@ -246,6 +246,9 @@ func (t *Tokenizer) tokenizeBuffer(buf []byte, last bool) error {
 			if depth < 0 || t.starts[depth] != objectStart {
 				return t.newError(off, "unexpected object close")
 			}
+			if t.mode == valueMap { // a member value is still expected after the colon
+				return t.newError(off, "unexpected object close")
+			}
 			if 256 < len(t.mode) && t.mode[256] == 'n' {
 				t.handleNum()
 			}
